@@ -9,7 +9,7 @@ import interp
 from common import Result, pmap, compare, VERIF
 
 ID = 'C04'
-COQ_FILES = ['Properties/C04.v', 'Proofs/LRcert.v', 'Proofs/LRvalue.v', 'Gen/Grammar.v']
+COQ_FILES = ['Properties/C04.v', 'Proofs/LRcert.v', 'Proofs/LRvalue.v', 'Proofs/LRfull.v', 'Proofs/ParensFull.v', 'Gen/Grammar.v']
 TRUSTED = [
     'Gen/Grammar.v is regenerated on every run by tools/gen/grammar.py from the LIVE ply parser of the tree under test (the '
     'action/goto tables as loaded or rebuilt, productions with their grammar-action names, precedence, token numbering, '
